@@ -306,9 +306,9 @@ func c14Accounting(e *core.Env, r *core.Rand, d *gen.Out) {
 			e.Violation("tag-filter-fails", fmt.Sprintf("klog total --tag %s failed", ref.CanonicalTag(key)), w)
 			return
 		}
-		if n == 0 && !strings.HasPrefix(ref.CanonicalTag(key), "#-") {
+		if n == 0 && !strings.HasPrefix(ref.CanonicalTag(key), "#-") && !strings.Contains(ref.CanonicalTag(key), "\\,") {
 			// the same clause through the argument decoder of the full CLI
-			cres := obs.RunCLI(obs.CLIEnv{ConfigDir: e.Dir + "/cfg", Cpus: 1, Theme: "no_colour", Clock: clock}, "total", "--decimal", "--no-style", "--no-warn", "--tag", ref.CanonicalTag(key), f)
+			cres := obs.RunCLI(obs.CLIEnv{ConfigDir: e.Dir + "/cfg", Cpus: 1, Theme: "no_colour", Clock: clock}, "total", "--decimal", "--no-style", "--no-warn", "--tag", strings.ReplaceAll(ref.CanonicalTag(key), ",", "\\,"), f)
 			if cres.Panic != nil || cres.Code != 0 || cres.Out != tres.Out {
 				e.Violation("tag-filter-cli-differs", fmt.Sprintf("`klog total --tag %s` through the full CLI (exit %d) prints\n%s\nthe command given the parsed tag prints\n%s", ref.CanonicalTag(key), cres.Code, trunc(cres.Out+cres.Err, 300), trunc(tres.Out, 300)), w)
 				return
